@@ -540,6 +540,23 @@ func runHistory(c *lib.Ctx, id int, ops []string) {
 			return e
 		})
 		if err != nil {
+			// a bind failure on an address no instance of this history has ever
+			// listened on cannot be something an earlier instance left behind:
+			// somebody else on this machine holds the port; the history is
+			// abandoned, not judged
+			if strings.Contains(err.Error(), "address already in use") {
+				fresh := true
+				for _, e := range traceFrom(0) {
+					if e.Gen/100 == id && e.Gen != nc.Gen && (e.Kind == "listen" || e.Kind == "inherit") && e.Addr != "" && strings.Contains(err.Error(), e.Addr) {
+						fresh = false
+					}
+				}
+				if fresh {
+					h.c.Count("histories_abandoned_foreign_socket_on_a_fresh_port", 1)
+					h.ok = false
+					return false
+				}
+			}
 			h.viol("C16/valid-start-failed", "start failed: "+err.Error())
 			return false
 		}
